@@ -11,10 +11,19 @@ value or an exception" is driven per vector with: digit strings of the base
 with one illegal character and with 11 characters (x2DEC), the decimal numeral
 of the value as text with one illegal character (DEC2x), and a places argument
 that is text with an illegal character or an error value (DEC2x, x2y; an error
-value may also be handed on as it is).  Places > 10 is not judged (outside the
-quantifier "places 1..10", not documented by Excel).
+value may also be handed on as it is).  Places 11 .. 10^18 is not judged
+(outside the quantifier "places 1..10", not documented by Excel).
+"Outside the range" is driven at every magnitude: the spec scales the value of
+every vector by 10^e (Radix!Exps: next to the ranges, beyond 2^63, around and
+beyond the largest double) and says which of them are outside (Radix!InRange),
+which are beyond the doubles (Radix!BeyondDouble) and which make a decimal
+numeral of more than 10 digits; they are handed to DEC2x, x2DEC and x2y as an
+integer, as the nearest double (an infinity when beyond the doubles), as
+numeric text ("-512e3", "5e400") and as the digits written out, and 10^e
+(e >= 19) as places.  NaN, the double that is no number, goes the same way.
 """
 import json
+import math
 import os
 import random
 
@@ -108,8 +117,29 @@ def run(tier, seed):
 
     def expect_error(desc, got, case, allowed=(NUM_ERROR, VALUE_ERROR)):
         v.case((desc.split(' ')[0], json.dumps(case, sort_keys=True)))
-        if isinstance(got, Exception) or got not in allowed:
+        if isinstance(got, Exception) or not isinstance(got, str) or got not in allowed:
             v.violation(f'{desc}: expected one of {allowed}, got {got!r}', case)
+
+    def short(x):
+        r = repr(x)
+        return r if len(r) <= 40 else f'{r[:12]}..({len(r)} chars)..{r[-8:]}'
+
+    def forms(mant, e, beyond, written_out):
+        """mant * 10^e as the arguments that stand for it: (kind, argument,
+        errors allowed).  A finite number outside the range is #NUM!; what no
+        number stands for (an infinity, text) may also be #VALUE!"""
+        sci = f'{mant}e{e}'
+        dbl = float(sci)
+        if beyond and not math.isinf(dbl):
+            raise tlc.MachineryFailure(f'{sci} is finite, the spec says beyond the doubles')
+        out = [('int', mant * 10 ** e, (NUM_ERROR,)),
+               ('float', dbl, (NUM_ERROR, VALUE_ERROR) if math.isinf(dbl) else (NUM_ERROR,)),
+               ('text', sci, (NUM_ERROR, VALUE_ERROR))]
+        if written_out:
+            out.append(('digits', str(mant * 10 ** e), (NUM_ERROR, VALUE_ERROR)))
+        return out
+
+    seen_inf = 0
 
     formula_budget = 150 if tier == 'quick' else 1500
     for vec in vectors:
@@ -193,6 +223,35 @@ def run(tier, seed):
                          dict(case, places=p_bad))
             expect_error(f'{nm}2{NAME[ob]} places error', call(f, canon, err),
                          dict(case, places=err), (err, NUM_ERROR, VALUE_ERROR))
+        # outside the range at every magnitude: n * 10^e for the exponents the
+        # spec found outside the range of the base
+        if sorted(vec['out']) != sorted(
+                e for e in vec['exps'] if not -RANGE[base] <= n * 10 ** e < RANGE[base]):
+            raise tlc.MachineryFailure(f'Radix!InRange disagrees with integer arithmetic: {vec}')
+        e_out = rnd.choice(vec['out']) if vec['out'] else None
+        for e in vec['out']:
+            for kind, arg, allowed in forms(n, e, e in vec['inf'], e == e_out):
+                seen_inf += isinstance(arg, float) and math.isinf(arg)
+                expect_error(f'dec2{nm} scaled {kind}', call(dec2x, arg),
+                             dict(case, exp10=e, arg=short(arg)), allowed)
+        # ... and the digit string read as a decimal numeral, times 10^e, once
+        # it has more than 10 digits (x2DEC and x2y given a number)
+        if canon.isdigit():
+            f = getattr(eng, f'{nm}2{NAME[ob]}')
+            for e in vec['long']:
+                for kind, arg, allowed in forms(int(canon), e, len(canon) + e >= 310, False):
+                    if kind == 'text':
+                        continue         # more than 10 characters: driven above
+                    expect_error(f'{nm}2dec scaled {kind}', call(x2dec, arg),
+                                 dict(case, exp10=e, arg=short(arg)), allowed)
+                    expect_error(f'{nm}2{NAME[ob]} scaled {kind}', call(f, arg),
+                                 dict(case, exp10=e, arg=short(arg)), allowed)
+        # places beyond any text length: 10^e, e >= 19
+        for e in vec['pfar']:
+            for kind, arg, allowed in forms(1, e, e >= 309, False):
+                expect_error(f'dec2{nm} places scaled {kind}', call(dec2x, n, arg),
+                             dict(case, exp10=e, places=short(arg)),
+                             (NUM_ERROR, VALUE_ERROR))
         # through compiled formulas
         if formula_budget > 0 and (rnd.random() < 0.1 or n in (
                 -RANGE[base], RANGE[base] - 1, -1, 0)):
@@ -220,12 +279,62 @@ def run(tier, seed):
             expect_error(f'formula DEC2{fn} places error', call(
                 xl.evalf, f'=DEC2{fn}(A1,1/0)', {'A1': n}),
                 dict(case, places='1/0'), ('#DIV/0!', NUM_ERROR, VALUE_ERROR))
+            # beyond the range / beyond the doubles through cells and literals
+            if e_out is not None:
+                sci = f'{n}e{e_out}'
+                expect_error(f'formula DEC2{fn} scaled text', call(
+                    xl.evalf, f'=DEC2{fn}(A1)', {'A1': sci}), dict(case, text=sci))
+                expect_error(f'formula DEC2{fn} scaled literal', call(
+                    xl.evalf, f'=DEC2{fn}("{sci}")', {}), dict(case, text=sci))
+                if not math.isinf(float(sci)):
+                    expect_error(f'formula DEC2{fn} scaled number', call(
+                        xl.evalf, f'=DEC2{fn}(A1)', {'A1': float(sci)}),
+                        dict(case, number=sci), (NUM_ERROR,))
+            e_far = rnd.choice(vec['pfar'])
+            expect_error(f'formula DEC2{fn} places scaled', call(
+                xl.evalf, f'=DEC2{fn}(A1,"1e{e_far}")', {'A1': n}),
+                dict(case, places=f'"1e{e_far}"'))
+            if e_far < 309:
+                expect_error(f'formula DEC2{fn} places scaled number', call(
+                    xl.evalf, f'=DEC2{fn}(A1,B1)', {'A1': n, 'B1': float(f'1e{e_far}')}),
+                    dict(case, places=f'1e{e_far}'))
     # outside the range
+    if not seen_inf:
+        raise tlc.MachineryFailure('vacuous: no scaled value was beyond the doubles')
+    nan = float('nan')
     for base in (2, 8, 16):
-        dec2x = getattr(eng, 'dec2' + NAME[base])
+        nm, fn = NAME[base], NAME[base].upper()
+        dec2x = getattr(eng, 'dec2' + nm)
+        x2dec = getattr(eng, nm + '2dec')
         for n in (RANGE[base], -RANGE[base] - 1, RANGE[base] * 7, -RANGE[base] * 3):
-            expect_error(f'dec2{NAME[base]} out of range', call(dec2x, n),
+            expect_error(f'dec2{nm} out of range', call(dec2x, n),
                          dict(base=base, value=n), (NUM_ERROR,))
+        # the doubles that no number stands for, as they arise inside a
+        # workbook (1E+308*10 is an infinity, minus itself a NaN to pycel)
+        others = [(NAME[ob], getattr(eng, f'{nm}2{NAME[ob]}'))
+                  for ob in (2, 8, 16) if ob != base]
+        for name, x in (('inf', math.inf), ('-inf', -math.inf), ('nan', nan)):
+            case = dict(base=base, value=name)
+            expect_error(f'dec2{nm} not finite', call(dec2x, x), case)
+            expect_error(f'dec2{nm} places not finite', call(dec2x, 1, x), case)
+            expect_error(f'{nm}2dec not finite', call(x2dec, x), case)
+            for to, f in others:
+                expect_error(f'{nm}2{to} not finite', call(f, x), case)
+                expect_error(f'{nm}2{to} places not finite', call(f, '1', x), case)
+        big = {'inf': '1E+308*10', '-inf': '-1E+308*10', 'nan': '1E+308*10-1E+308*10'}
+        for name, expr in big.items():
+            case = dict(base=base, value=name, expr=expr)
+            for desc, formula in (
+                    (f'formula DEC2{fn} not finite', f'=DEC2{fn}({expr})'),
+                    (f'formula DEC2{fn} not finite cell', f'=DEC2{fn}(A1*10)'),
+                    (f'formula DEC2{fn} places not finite', f'=DEC2{fn}(1,{expr})'),
+                    (f'formula {fn}2DEC not finite', f'={fn}2DEC({expr})'),
+                    (f'formula {fn}2{others[0][0].upper()} not finite',
+                     f'={fn}2{others[0][0].upper()}({expr})')):
+                if 'A1' in formula and name == 'nan':
+                    continue
+                cells = {'A1': -1e308 if name == '-inf' else 1e308}
+                expect_error(desc, call(xl.evalf, formula, cells), dict(case, formula=formula))
     v.extra.update(exhaustive=(tier == 'quick'), vectors=len(vectors),
                    coverage_actions={k: list(c) for k, c in res.coverage.items()},
                    rule='one case = (function, base, digit string / value); '
@@ -233,7 +342,10 @@ def run(tier, seed):
                         'binary range exhaustive, octal/hex: 128-step odometer '
                         'walks across every boundary and patterned seeds',
                    illegal_characters={str(k): c for k, c in ILLEGAL.items()},
-                   unconstrained=['places > 10', 'text that Excel reads as a number '
+                   scaled_by_exp10=sorted(vectors[0]['exps']) if vectors else [],
+                   places_exp10=sorted(vectors[0]['pfar']) if vectors else [],
+                   infinite_arguments=seen_inf,
+                   unconstrained=['places 11 .. 10^18', 'text that Excel reads as a number '
                                   '(blanks, signs, scientific notation) as the '
                                   'decimal argument'])
     v.traces = len(vectors)
